@@ -131,6 +131,12 @@ def gen_spec(rng, tier, batched=False, names=None):
                 terms[-1] = terms[0]                   # the same cons-hashed operand twice
             nodes.append(["contr", op, terms])
         scal.append(len(nodes) - 1)
+    # a comparison (constant on either side, or two nodes) reduced by all / any
+    if scal and rng.random() < 0.12:
+        a, b = scal[-1 - min(int(rng.expovariate(0.5)), len(scal) - 1)], rng.choice(scal)
+        nodes.append(["bin", rng.choice(["lt", "le", "gt", "ge", "eq", "ne"]), a, b])
+        nodes.append(["un", rng.choice(["all", "any"]), len(nodes) - 1])
+        scal.append(len(nodes) - 1)
     # tuples on top
     r = rng.random()
     if r < 0.45:
@@ -159,7 +165,9 @@ def gen_spec(rng, tier, batched=False, names=None):
 def gen_data(rng, spec):
     data = {}
     n = spec["n"]
-    VALS = globals()["VALS"] + (WILD_VALS if spec.get("wild") else [])
+    # boundary values: the literal constants of the expression (ties for comparisons / clamps), 0 and +-1
+    consts = [float(nd[1]) for nd in spec["nodes"] if nd[0] in ("num", "tensor") and not isinstance(nd[1], list)]
+    VALS = globals()["VALS"] + (WILD_VALS if spec.get("wild") else []) + (consts * 3 + [0.0, 1.0, -1.0] if consts else [])
     for nd in spec["nodes"]:
         if nd[0] == "var":
             _, name, kind, size = nd
@@ -216,14 +224,21 @@ def build(spec):
     return built[spec["root"]], built
 
 
-NP_UN = {"neg": np.negative, "abs": np.abs, "exp": np.exp, "tanh": np.tanh, "log1p": np.log1p,
+NP_UN = {"all": lambda x: np.asarray(np.all(x), dtype=np.float64), "any": lambda x: np.asarray(np.any(x), dtype=np.float64),
+         "neg": np.negative, "abs": np.abs, "exp": np.exp, "tanh": np.tanh, "log1p": np.log1p,
          "sigmoid": lambda x: 1.0 / (1.0 + np.exp(-x)), "log": np.log, "atanh": np.arctanh,
          "reciprocal": np.reciprocal, "sqrt": np.sqrt}
 def _intop(f):
     return lambda a, b: f(np.asarray(a).astype(np.int64), np.asarray(b).astype(np.int64)).astype(np.float64)
 
 
-NP_BIN = {"add": np.add, "sub": np.subtract, "mul": np.multiply, "max": np.maximum, "min": np.minimum,
+def _cmpop(f):
+    return lambda a, b: f(a, b).astype(np.float64)
+
+
+NP_BIN = {"lt": _cmpop(np.less), "le": _cmpop(np.less_equal), "gt": _cmpop(np.greater), "ge": _cmpop(np.greater_equal),
+          "eq": _cmpop(np.equal), "ne": _cmpop(np.not_equal),
+          "add": np.add, "sub": np.subtract, "mul": np.multiply, "max": np.maximum, "min": np.minimum,
           "truediv": np.true_divide, "logaddexp": np.logaddexp, "sample": np.logaddexp,
           "and_": _intop(np.bitwise_and), "or_": _intop(np.bitwise_or), "xor": _intop(np.bitwise_xor)}
 ASSOC_REAL = ["add", "mul", "max", "min", "logaddexp", "sample"]
@@ -1067,6 +1082,8 @@ def pbuild(pspec):
                 f = built[nd[2]][eval(nd[1], {"__builtins__": {}}, env)]
             elif k == "num":
                 f = Number(nd[1])
+            elif k == "tconst":
+                f = Tensor(np.array(nd[1], dtype=np.float64))
             elif k == "ew":
                 f = Binary(getattr(ops, nd[1]), built[nd[2]], built[nd[3]])
             elif k == "un":
@@ -1095,6 +1112,7 @@ import json, pickle, numpy as np
 import funsor, funsor.ops as ops
 funsor.set_backend("numpy")
 from funsor.terms import Variable, Number, Unary, Binary, Tuple
+from funsor.tensor import Tensor
 from funsor.domains import Real, Reals, Bint
 from funsor.interpretations import reflect, lazy, eager
 from funsor.compiler import compile_funsor
@@ -1110,6 +1128,7 @@ with {{"reflect": reflect, "lazy": lazy, "eager": eager}}[pspec.get("interp", "r
         elif k == "ivar": f = Variable(nd[1], Bint[nd[2]])
         elif k == "vindex": f = b[nd[2]][eval(nd[1], {{"slice": slice, "Ellipsis": Ellipsis, **{{nm: b[j] for nm, j in nd[3].items()}}}})]
         elif k == "num": f = Number(nd[1])
+        elif k == "tconst": f = Tensor(np.array(nd[1], dtype=np.float64))
         elif k == "ew": f = Binary(getattr(ops, nd[1]), b[nd[2]], b[nd[3]])
         elif k == "un": f = Unary(getattr(ops, nd[1]), b[nd[2]])
         elif k == "pop" and nd[1] == "reshape": f = b[nd[3]].reshape(tup(nd[2][0]))
@@ -1557,6 +1576,56 @@ def index_stream(ctx, use_driver=True):
             check_pcase(ctx, pspec, use_driver, "index-" + label)
             if any(f.witness is not None for f in ctx.failures) or ctx.infra_errors:
                 return
+
+
+# ---------------------------------------------------------------------------------------------
+# comparison ops at BOUNDARY values: six ops x {constant left, constant right, two inputs} x {Number, Tensor
+# constant} on real and integer inputs whose data contain the threshold (ties in >= 1/3 of the entries); the
+# masks also feed all() / any() and arithmetic
+# ---------------------------------------------------------------------------------------------
+
+CMP_OPS = ["lt", "le", "gt", "ge", "eq", "ne"]
+
+
+def cmp_specs():
+    out = []
+    c = 0.5
+    xs = [[0.5, 1.0, 0.5, -1.0, 0.0, 0.5], [0.5, 0.5, 0.5, 0.5, 0.5, 0.5], [0.25, 0.5, 0.75, 0.5, -0.5, 2.0]]
+    ys = [0.5, 1.0, -1.0, -1.0, 0.5, 0.5]
+    for op in CMP_OPS:
+        for side in ("const-left", "const-right", "two-inputs"):
+            for ckind in (("num", "tconst") if side != "two-inputs" else ("none",)):
+                for post in ("mask", "all", "any", "where"):
+                    for xi, xd in enumerate(xs):
+                        nodes = [["var", "x", [6]], ["var", "y", [6]], [ckind, c] if ckind != "none" else ["num", c]]
+                        if side == "const-left":
+                            nodes.append(["ew", op, 2, 0])
+                        elif side == "const-right":
+                            nodes.append(["ew", op, 0, 2])
+                        else:
+                            nodes.append(["ew", op, 0, 1])
+                        m = 3
+                        if post in ("all", "any"):
+                            nodes.append(["pop", post, [], m])
+                        elif post == "where":
+                            nodes += [["ew", "sub", 0, 2], ["tuple", [m, 4, 0]]]
+                        out.append((f"{op}:{side}", {"nodes": nodes, "root": len(nodes) - 1,
+                                                     "interp": ("reflect", "eager", "lazy")[xi], "data": {"x": xd, "y": ys}}))
+        # integer inputs: Bint[4] against the literal 2 and against another Bint input, ties included
+        for side in ("const-left", "const-right", "two-inputs"):
+            for iv, jv in ((2, 2), (1, 2), (3, 2), (2, 1)):
+                nodes = [["ivar", "i", 4], ["ivar", "j", 4], ["num", 2]]
+                nodes.append(["ew", op, 2, 0] if side == "const-left" else (["ew", op, 0, 2] if side == "const-right" else ["ew", op, 0, 1]))
+                out.append((f"{op}:int:{side}", {"nodes": nodes, "root": 3, "interp": "reflect", "data": {"i": iv, "j": jv}}))
+    return out
+
+
+def cmp_stream(ctx, use_driver=True):
+    for label, pspec in cmp_specs():
+        check_pcase(ctx, pspec, use_driver, "cmp-" + label.split(":")[0])
+        ctx.count("cmp-side:" + label.split(":")[-1])
+        if any(f.witness is not None for f in ctx.failures) or ctx.infra_errors:
+            return
 
 # ---------------------------------------------------------------------------------------------
 # tracer
@@ -2221,6 +2290,8 @@ def correspond(ctx):
         if ctx.failures or ctx.infra_errors:
             break
     if not (ctx.failures or ctx.infra_errors):
+        cmp_stream(ctx)
+    if not (ctx.failures or ctx.infra_errors):
         index_stream(ctx)
     if not (ctx.failures or ctx.infra_errors):
         assoc_stream(ctx)
@@ -2271,6 +2342,9 @@ def search(ctx, broken):
         check_trace(ctx, gen_trace_spec(rng, "thorough"), use_driver=False)
         if have():
             return
+    cmp_stream(ctx, use_driver=False)
+    if have():
+        return
     index_stream(ctx, use_driver=False)
     if have():
         return
